@@ -173,8 +173,14 @@ func (l *listener) handle(conn net.Conn) {
 
 	buf := bufPool.Get().([]byte)
 	buf = buf[:0]
-	defer bufPool.Put(buf)
-	defer verifBufRelease(buf)
+	defer func() {
+		// A hijacked connection has been handed to the wrapped listener together
+		// with the bytes buffered for matching: the buffer is still in use.
+		if !errors.Is(err, errHijacked) {
+			verifBufRelease(buf)
+			bufPool.Put(buf)
+		}
+	}()
 
 	cx := WrapConnection(conn, buf, l.logger)
 	cx.Context = context.WithValue(cx.Context, listenerCtxKey, l)
